@@ -249,27 +249,43 @@ Proof.
     rewrite Z.mul_succ_l. rewrite drop_drop by nia. f_equal; [lia|]. f_equal. lia.
 Qed.
 
-Lemma elementwise_gen_loop : forall k addr bs n, addr <> 0 -> 0 <= ksize k ->
+Lemma zrange_bound : forall n x, In x (zrange n) -> 0 <= x < Z.of_nat n.
+Proof.
+  intros n x H. unfold zrange in H. apply in_map_iff in H. destruct H as [y [<- Hy]].
+  apply in_seq in Hy. lia.
+Qed.
+
+Lemma in_model : forall k bs n, 0 <= ksize k -> n * ksize k <= Z.of_nat (length bs) ->
+  out_of_model k bs n = false.
+Proof.
+  intros k bs n Hs Hb. unfold out_of_model. apply andb_false_intro2. apply Z.ltb_ge. exact Hb.
+Qed.
+
+Lemma elementwise_gen_loop : forall k addr bs n, addr <> 0 -> 0 <= ksize k -> 0 <= n ->
+  n * ksize k <= Z.of_nat (length bs) ->
   elementwise k addr bs n = gen_loop k addr bs (Z.to_nat n).
 Proof.
-  intros k addr bs n Ha Hs. unfold elementwise. rewrite gen_loop_elementwise by assumption.
-  apply mue_ext. intros x _. unfold index.
-  destruct (Z.eqb_spec addr 0); [contradiction|reflexivity].
+  intros k addr bs n Ha Hs Hn Hb. unfold elementwise. rewrite gen_loop_elementwise by assumption.
+  apply mue_ext. intros x Hx. apply zrange_bound in Hx. rewrite Z2Nat.id in Hx by assumption.
+  unfold index. destruct (Z.eqb_spec addr 0); [contradiction|].
+  rewrite in_model by (assumption || nia). reflexivity.
 Qed.
 
 (* ---------------------------------------------------------------- the list-valued kinds *)
 Definition is_char (k : kind) : bool := match k with KChar _ => true | _ => false end.
 
 Theorem unpack_elementwise_list : forall tb k align addr bs n,
-  tables_ok tb = true -> wf_kind k -> is_char k = false -> 0 <= n -> addr <> 0 ->
+  tables_ok tb = true -> wf_kind k -> is_char k = false -> 0 <= n ->
+  n * ksize k <= Z.of_nat (length bs) -> addr <> 0 ->
   unpack tb k align addr bs n = joined k (elementwise k addr bs n).
 Proof.
-  intros tb k align addr bs n Hok Hwf Hc Hn Ha.
+  intros tb k align addr bs n Hok Hwf Hc Hn Hb Ha.
   pose proof (wf_ksize k Hwf) as Hs.
   rewrite elementwise_gen_loop by assumption.
   unfold unpack.
   destruct (Z.ltb_spec n 0); [lia|].
   destruct (Z.eqb_spec addr 0); [contradiction|].
+  rewrite in_model by assumption.
   destruct (Z.ltb_spec (ksize k) 0); [lia|].
   unfold casenum. rewrite loop_sound by assumption.
   destruct k; try discriminate; cbn [joined];
@@ -305,9 +321,10 @@ Theorem unpack_elementwise_char : forall tb align addr bs n,
   unpack tb (KChar 1) align addr bs n = joined (KChar 1) (elementwise (KChar 1) addr bs n).
 Proof.
   intros tb align addr bs n Hn Ha.
-  rewrite elementwise_gen_loop by (cbn; lia || assumption).
+  rewrite elementwise_gen_loop by (cbn [ksize]; lia || assumption).
   rewrite gen_loop_char1 by lia.
   unfold unpack. destruct (Z.ltb_spec n 0); [lia|]. destruct (Z.eqb_spec addr 0); [contradiction|].
+  rewrite in_model by (cbn [ksize]; lia).
   cbn [joined Z.eqb Pos.eqb]. rewrite concat_values_bytes. reflexivity.
 Qed.
 
@@ -327,13 +344,15 @@ Qed.
 
 (* char16_t: equal as Python strings when no high surrogate is immediately followed by a low one *)
 Theorem unpack_elementwise_char16 : forall tb align addr bs n,
-  0 <= n -> addr <> 0 -> count_surrogates (units 2 bs (Z.to_nat n)) = 0 ->
+  0 <= n -> n * 2 <= Z.of_nat (length bs) -> addr <> 0 ->
+  count_surrogates (units 2 bs (Z.to_nat n)) = 0 ->
   unpack tb (KChar 2) align addr bs n = joined (KChar 2) (elementwise (KChar 2) addr bs n).
 Proof.
-  intros tb align addr bs n Hn Ha Hc.
-  rewrite elementwise_gen_loop by (cbn; lia || assumption).
+  intros tb align addr bs n Hn Hb Ha Hc.
+  rewrite elementwise_gen_loop by (cbn [ksize]; lia || assumption).
   rewrite gen_loop_char2.
   unfold unpack. destruct (Z.ltb_spec n 0); [lia|]. destruct (Z.eqb_spec addr 0); [contradiction|].
+  rewrite in_model by (cbn [ksize]; lia).
   cbn [joined Z.eqb Pos.eqb]. unfold from_char16. rewrite Hc. cbn [Z.eqb of_res].
   rewrite concat_values_str. reflexivity.
 Qed.
@@ -428,14 +447,15 @@ Definition utf16 (r : result) : result :=
   match r with RStr l => RStr (encode16 l) | _ => r end.
 
 Theorem unpack_elementwise_char16_utf16 : forall tb align addr bs n,
-  0 <= n -> addr <> 0 ->
+  0 <= n -> n * 2 <= Z.of_nat (length bs) -> addr <> 0 ->
   utf16 (unpack tb (KChar 2) align addr bs n)
   = utf16 (joined (KChar 2) (elementwise (KChar 2) addr bs n)).
 Proof.
-  intros tb align addr bs n Hn Ha.
-  rewrite elementwise_gen_loop by (cbn; lia || assumption).
+  intros tb align addr bs n Hn Hb Ha.
+  rewrite elementwise_gen_loop by (cbn [ksize]; lia || assumption).
   rewrite gen_loop_char2.
   unfold unpack. destruct (Z.ltb_spec n 0); [lia|]. destruct (Z.eqb_spec addr 0); [contradiction|].
+  rewrite in_model by (cbn [ksize]; lia).
   cbn [joined Z.eqb Pos.eqb]. rewrite concat_values_str.
   pose proof (units2_range (Z.to_nat n) bs) as R.
   unfold from_char16.
@@ -476,13 +496,14 @@ Proof.
 Qed.
 
 Theorem unpack_elementwise_char32 : forall tb align addr bs n,
-  0 <= n -> addr <> 0 ->
+  0 <= n -> n * 4 <= Z.of_nat (length bs) -> addr <> 0 ->
   unpack tb (KChar 4) align addr bs n = joined (KChar 4) (elementwise (KChar 4) addr bs n).
 Proof.
-  intros tb align addr bs n Hn Ha.
-  rewrite elementwise_gen_loop by (cbn; lia || assumption).
+  intros tb align addr bs n Hn Hb Ha.
+  rewrite elementwise_gen_loop by (cbn [ksize]; lia || assumption).
   rewrite gen_loop_char4.
   unfold unpack. destruct (Z.ltb_spec n 0); [lia|]. destruct (Z.eqb_spec addr 0); [contradiction|].
+  rewrite in_model by (cbn [ksize]; lia).
   cbn [Z.eqb Pos.eqb].
   destruct (from_char32 (units 4 bs (Z.to_nat n))); cbn [joined of_res Z.eqb Pos.eqb].
   - rewrite concat_values_str. reflexivity.
@@ -529,4 +550,20 @@ Proof.
   unfold joined in H. destruct (elementwise k addr bs n) as [vs|e'] eqn:E.
   - destruct k; try discriminate. destruct (size =? 1); discriminate.
   - inversion H; subst. apply mue_first_error. exact E.
+Qed.
+
+(* reads past the end of the modelled memory are an explicit error on both sides, not a value *)
+Theorem unpack_out_of_model : forall tb k align addr bs n,
+  0 <= n -> addr <> 0 -> 0 <= ksize k -> Z.of_nat (length bs) < n * ksize k ->
+  unpack tb k align addr bs n = RErr OutOfModel /\
+  index k addr bs (n - 1) = Err OutOfModel.
+Proof.
+  intros tb k align addr bs n Hn Ha Hs Hb.
+  assert (out_of_model k bs n = true) as E.
+  { unfold out_of_model. apply andb_true_intro. split; [apply Z.leb_le|apply Z.ltb_lt]; assumption. }
+  split.
+  - unfold unpack. destruct (Z.ltb_spec n 0); [lia|]. destruct (Z.eqb_spec addr 0); [contradiction|].
+    rewrite E. reflexivity.
+  - unfold index. destruct (Z.eqb_spec addr 0); [contradiction|].
+    replace (n - 1 + 1) with n by lia. rewrite E. reflexivity.
 Qed.
